@@ -32,6 +32,7 @@ class Checker:
         self.idmask = 0xff if shape['cfg'].get('payload') == 'tiny' else None
         self.taskcap = knobs.get('taskcap', 0); self.plans_on = bool(knobs.get('plans', 0))
         self.auth_notes = set(); self.auth_single_round = True; self.ylist = []; self.vflag = None; self.bytes = None
+        self.hist_cap = sum(1 for x in self.nodes if x['kind'] == 'C') * subst      # TransitionSets: COMPO_COUNT * SUBSTITUTION_LIMIT
     # ------------------------------------------------------------------
     def v(self, prop, key, op, detail=None):
         full = prop + '.' + key
@@ -222,7 +223,7 @@ class Checker:
             m.final_exit()
         elif kind in ('QUERY', 'PLANEDIT', 'EXTSTATUS'):
             pass
-        elif kind in ('REPLAY', 'REPLAY_ENTER', 'SAVE', 'LOAD'):
+        elif kind in ('REPLAY', 'REPLAY_ENTER', 'SAVE', 'LOAD', 'OVERLONG'):
             return self.step_special(op, st, kind, guards, cbs, before)
         else:
             self.v('C00', 'harness|unknown-op-' + kind, op); return
@@ -324,6 +325,11 @@ class Checker:
                     else: self.stats['C09.replay-resumable-differs(multi-round/schedule: not judged)'] += 1
                 else:
                     self.nontrivial['C09.replay'].add((auth.act, auth.res, tuple(y[1:3] for y in self.ylist)))
+        elif kind == 'OVERLONG':
+            # a history longer than the machine can hold: judged on memory safety (sanitizer), live assertions, well-formedness and lifecycle only
+            self.stats['C11.over-long-replays'] += 1
+            if guards or any(me in (4, 14) for me, s in cbs): self.v('C09', 'replay|guards-consulted', op, [g['state'] for g in guards][:6])
+            if op.prev is not None and len(op.prev) > self.hist_cap: self.v('C11', 'history|holds-more-entries-than-its-capacity', op, len(op.prev))
         elif kind == 'SAVE':
             self.stats['C08.saves'] += 1
             if cbs: self.v('C08', 'save|callbacks-invoked', op, cbs[:4])
